@@ -342,10 +342,38 @@ pub fn get_unix_timestamp_ms() -> u64 {
 /// This timestamp is ensured to be accurate taking into account the
 /// resolution lost when converting the timestamp.
 pub fn get_datacake_timestamp() -> Duration {
+    #[cfg(feature = "verif")]
+    if let Some(injected) = verif_clock::injected_wall() {
+        let (seconds, fractional) = duration_to_parts(injected);
+        return parts_as_duration(seconds, fractional);
+    }
+
     let duration = SystemTime::now().duration_since(UNIX_EPOCH).unwrap();
 
     let (seconds, fractional) = duration_to_parts(duration - DATACAKE_EPOCH);
     parts_as_duration(seconds, fractional)
+}
+
+#[cfg(feature = "verif")]
+/// Verification hook (off by default): lets a harness replace the wall clock reading
+/// used by [get_datacake_timestamp] with an injected value.
+pub mod verif_clock {
+    use std::sync::atomic::{AtomicU64, Ordering};
+    use std::time::Duration;
+
+    static WALL_OVERRIDE_MS: AtomicU64 = AtomicU64::new(u64::MAX);
+
+    /// Sets (`Some(ms since the datacake epoch)`) or clears (`None`) the injected wall clock.
+    pub fn set_wall_ms(ms: Option<u64>) {
+        WALL_OVERRIDE_MS.store(ms.unwrap_or(u64::MAX), Ordering::SeqCst);
+    }
+
+    pub(crate) fn injected_wall() -> Option<Duration> {
+        match WALL_OVERRIDE_MS.load(Ordering::SeqCst) {
+            u64::MAX => None,
+            ms => Some(Duration::from_millis(ms)),
+        }
+    }
 }
 
 #[cfg(test)]
